@@ -122,6 +122,11 @@ func selfTest(dump bool, specs []string) []string {
 		c.ReturnOnlyUnder(fn, 0, "eq(gross,0)", "true", "empty only without gross")
 	})
 
+	pair("NotUnder", "GoodNotUnder", "BadNotUnder", func(c *rules.Ctx, fn string) { c.NotUnder(fn, "fx.use", "dry", "use does not depend on the mode flag") })
+	pair("MapAccumulate", "GoodAccumulate", "BadAccumulateDrop", func(c *rules.Ctx, fn string) { c.MapAccumulate(fn, "elem(vs)", 1, "summed per key") })
+	pair("MapAccumulate", "", "BadAccumulateOverwrite", func(c *rules.Ctx, fn string) { c.MapAccumulate(fn, "elem(vs)", 0, "summed per key") })
+	pair("KeyLayout", "GoodKey", "BadKeyOpenPrefix", func(c *rules.Ctx, fn string) { c.KeyLayout(fn, "idx/<pool>/<denom>/", "closed prefix") })
+
 	// the same rules through helpers that are not in the function inventory (virtual inlining)
 	pair("FailsWhen/helper", "GoodGuardViaHelper", "BadGuardViaHelper", func(c *rules.Ctx, fn string) {
 		c.FailsWhen(fn, "ne(owner,sender)", "only the owner", rules.GuardOpt{Before: "fx.pay"})
